@@ -32,8 +32,8 @@ from .c15 import write_nl, snapshot, _Sink
 
 INVS = {
     "s2": ["InvS2ContribExact", "InvS2ContribSymmetric", "InvS2ClassConsistent", "InvS2EdgeFamily", "InvFastImage",
-           "InvS2FrameCells"],
-    "tetra": ["InvTeRegularIsPerfect", "InvTeFourAreNearest", "InvTeDiamond", "InvFastImage", "InvTeFrames"],
+           "InvS2FrameCells", "InvS2UnwrapInvariant"],
+    "tetra": ["InvTeRegularIsPerfect", "InvTeFourAreNearest", "InvTeDiamond", "InvFastImage", "InvTeFrames", "InvTeUnwrapInvariant"],
     "nematic": ["InvNmSymTraceless", "InvNmTraceEqualsEig", "InvNmRawIsOne", "InvNmInUnitRange", "InvNmUnitVectors",
                 "InvNmTruncation", "InvNmRowOrder", "InvNmBigFamily"],
     "gyr": ["InvGyKappaIdentity", "InvGyRanges", "InvGyShiftInvariant", "InvGyRotatedEigen", "InvGyAxisKinds"],
@@ -168,6 +168,8 @@ def replay_s2(chk, lib, case, tmp, tag="A"):
                        "types": case["types"], "sig": case["sig"], "rdelta": [case["rn"], case["rd"]], "nd": nd,
                        "contrib": case["contrib"], "cls": case["cls"]})
         chk.extra["s2_particles_asserted"] = chk.extra.get("s2_particles_asserted", 0) + asserted
+        if case.get("fr0") is not None and case["fr0"] != case["fr"]:
+            _bump(chk, "s2_cases_with_unwrapped_coordinates")
         if case.get("Hs") and any(h != case["Hs"][0] for h in case["Hs"]):
             _bump(chk, "s2_trajectories_with_cell_changing_between_frames")
         if case.get("tys") and any(t != case["tys"][0] for t in case["tys"]):
@@ -228,6 +230,8 @@ def replay_tetra(chk, lib, case, tmp, tag="A"):
         chk.extra["tetra_particles_asserted"] = chk.extra.get("tetra_particles_asserted", 0) + asserted
         if nfr == 2:
             _bump(chk, "tetra_two_frame_trajectories_with_distinct_frames")
+        if case.get("pos0") is not None and case["pos0"] != case["pos"]:
+            _bump(chk, "tetra_cases_with_unwrapped_coordinates")
 
 
 # --------------------------------------------------------------------------
@@ -365,6 +369,20 @@ def _tilted(rng, L, frac=2):
     return H
 
 
+def _unwrap(rng, pos, H, ppp):
+    """every particle displaced by -2..3 whole cell vectors along each periodic axis (unwrapped coordinates)"""
+    d = len(H)
+    out = []
+    for p in pos:
+        q = list(p)
+        for k in range(d):
+            if ppp[k]:
+                n = rng.randint(-2, 3)
+                q = [q[x] + n * H[k][x] for x in range(d)]
+        out.append(q)
+    return out
+
+
 def _rand_roword(rng, n):
     order = list(range(1, n + 1))
     if rng.random() < 0.6:
@@ -400,6 +418,9 @@ def gen_records(rng, nrec):
                 r["Hs"] = [H] + [_tilted(rng, L) for _ in range(T - 1)]
                 if K > 1 and rng.random() < 0.5:
                     r["tys"] = [r["types"]] + [rng.sample(r["types"], n) for _ in range(T - 1)]
+            if rng.random() < 0.5:
+                r["fr0"] = r["fr"]
+                r["fr"] = [_unwrap(rng, r["fr0"][f], (r["Hs"][f] if "Hs" in r else H), r["ppp"]) for f in range(T)]
         elif kind == "tetra":
             n = rng.randint(6, 30)
             S = 10
@@ -409,6 +430,9 @@ def gen_records(rng, nrec):
                 H[1][0] = rng.randint(-20, 20); H[2][0] = rng.randint(-20, 20); H[2][1] = rng.randint(-20, 20)
             recs.append({"m": "tetra", "id": len(recs), "kind": "rnd", "H": H, "ppp": [rng.randint(0, 1) for _ in range(3)],
                          "S": S, "pos": [[rng.randint(0, L[k]) for k in range(3)] for _ in range(n)]})
+            if rng.random() < 0.5:
+                recs[-1]["pos0"] = recs[-1]["pos"]
+                recs[-1]["pos"] = _unwrap(rng, recs[-1]["pos0"], H, recs[-1]["ppp"])
             if rng.random() < 0.4:     # two-frame trajectory: another configuration, other tilt factors
                 recs[-1]["H2"] = _tilted(rng, L, frac=4)
                 recs[-1]["pos2"] = [[rng.randint(0, L[k]) for k in range(3)] for _ in range(n)]
@@ -476,6 +500,8 @@ def run(tier, replay=None):
                 "kappa^2 identity / ranges / rotated principal axes on every input of the four MC_LocalOrder sub-models and "
                 "prints the expectation terms; every case replayed into S2.particle_s2 (with and without savegr), "
                 "q8_tetrahedral, NematicOrder.tensor (both variants, tensor attribute) and gyration_tensor. "
+                "Trajectories carry per-frame cells / types (sheared runs), coordinates are wrapped or unwrapped by whole cell "
+                "vectors, neighbour files have rows in any order and up to 39 listed ids with Nmax below / at / above the counts. "
                 "B: seeded random larger inputs, expectation per record from TraceLocalOrder.tla.")
     chk.assumptions = ["float comparison at 1e-9 of terms the spec states (1e-12 for 'exactly one')",
                        "S2 bins whose Gaussian sum lies in the denormal range ('fragile'), distances exactly r_max and "
@@ -483,7 +509,8 @@ def run(tier, replay=None):
                        "tetrahedral: equal 4th/5th neighbour distances are ties; nematic: ndim = 2 only (the code asserts it)",
                        "3-D asphericity / acylindricity only on clouds with known principal axes (axis-aligned or rational "
                        "rotations); kappa^2, R_g and the fractal dimension on every cloud",
-                       "gyration_tensor is handed a copy (it recentres its argument: C18)"]
+                       "gyration_tensor is handed a float copy / strided view (it recentres its argument in place: C18)",
+                       "rows of a neighbour-file frame may come in any order; the first min(cn, Nmax) listed ids are delivered (C05)"]
     try:
         lib = common.import_lib()
         import PyMatterSim.static.pairentropy  # noqa
